@@ -2776,11 +2776,56 @@ def MMXnoflags(info, a, b, c=None):
     e.append(ExprAff(a, ExprOp('MMX', a, b, c)))
     return e
 
+# MMX/SSE instructions with implicit operands or flag results
+def blendv(info, a, b):
+    # (p)blendv*: the mask is the implicit operand xmm0
+    return [ExprAff(a, ExprOp('MMX', a, b, xmm0))]
+
+def ptest(info, a, b):
+    e = []
+    e += update_flag_zf(ExprOp('&', a, b))
+    nota_b = ExprOp('&', ExprOp('^', a, ExprInt(uint128(-1))), b)
+    e.append(ExprAff(cf, ExprCond(nota_b, ExprInt_from(cf, 0), ExprInt_from(cf, 1))))
+    for f in [af, of, pf, nf]:
+        e.append(ExprAff(f, ExprInt_from(f, 0)))
+    return e
+
+def pcmpXstrX(implicit_length, result):
+    # pcmpestri/pcmpestrm/pcmpistri/pcmpistrm: uninterpreted; the explicit
+    # lengths are in eax and edx, the result goes to ecx or xmm0, the flags
+    # describe the comparison (af and pf are cleared)
+    def pcmpstr(info, a, b, c):
+        srcs = [a, b]
+        if not implicit_length:
+            srcs += [eax, edx]
+        e = []
+        e.append(ExprAff(result, ExprOp('MMX_pcmpstr', *[result] + srcs + [c])))
+        for f in [cf, zf, nf, of]:
+            e.append(ExprAff(f, ExprOp('MMX_pcmpstr_flag', *[f] + srcs + [c])))
+        for f in [af, pf]:
+            e.append(ExprAff(f, ExprInt_from(f, 0)))
+        return e
+    return pcmpstr
+
+def maskmov(info, a, b):
+    # maskmovq/maskmovdqu: bytes of a selected by b are stored at ds:[edi]
+    dst = ExprMem(edi, a.get_size())
+    return [ExprAff(dst, ExprOp('MMX', dst, a, b))]
+
 def ud2(info):
     # Undefined instruction, simulated by a jmp to an invalid address
     return [ ExprAff(eip, ExprInt32(-1)) ]
 
 mnemo_func = {'mov': mov,
+              '#p#blendvb': blendv,
+              'blendv##PS#': blendv,
+              'blendv##PD#': blendv,
+              '#p#test': ptest,
+              '#p#cmpestrm': pcmpXstrX(False, xmm0),
+              '#p#cmpestri': pcmpXstrX(False, ecx),
+              '#p#cmpistrm': pcmpXstrX(True, xmm0),
+              '#p#cmpistri': pcmpXstrX(True, ecx),
+              'maskmov#qu#': maskmov,
               'xchg': xchg,
               'movzx': movzx,
               'movsx': movsx,
